@@ -2,7 +2,7 @@
 checks of C01/C02 (rb, bst), C07 (heap), C08 (map), C12/C13 (dlist, slist) and C15."""
 from .core import *
 
-LIB = ["heap.c", "bintree.c", "rbtree.c", "slist.c", "dlist.c", "map.c", "common.c"]
+LIB = ["heap.c", "bintree.c", "rbtree.c", "slist.c", "dlist.c", "map.c", "hash.c", "common.c"]
 
 
 def big_phase(ctx, whats, tag="big"):
@@ -11,7 +11,7 @@ def big_phase(ctx, whats, tag="big"):
         ctx.log(f"{tag}: skipped, an earlier phase already established a violation")
         return
     t = time.time()
-    exe = build(ctx, "drv_big", "drv_big.c", LIB, flags=["-std=gnu99", "-O1", "-D_GNU_SOURCE", "-fstack-protector-all"])
+    exe = build(ctx, "drv_big", "drv_big.c", LIB, flags=["-std=gnu99", "-O1", "-D_GNU_SOURCE", "-fstack-protector-all"], libs=["-lm"])
     trace = ctx.work / f"{tag}.ndjson"
     rc, out = sh([str(exe), str(trace), str(ctx.seed)] + whats, timeout=900)
     if rc != 0:
